@@ -189,6 +189,8 @@ def oracle_c14(case, block):
                 return [("trace", "`done` although T%d completed %d of %d operations" % (t, n, len(case.threads[t - 1])))]
         if final is not None and kind in ("bq", "bbq") and final != len(q):
             return [("fifo", "final size() is %d, %d elements were put and not taken" % (final, len(q)))]
+        if final is not None and kind == "latch" and final != max(count, min(count, 0)) and final != count:
+            return [("observer", "final getCount() is %d, the count is %d" % (final, count))]
         return []
     # all-blocked: every thread that is not finished must be parked with its predicate false
     st = parse_blocked(ended)
@@ -304,6 +306,9 @@ def oracle_c15(case, block):
         if nthreads > 0:
             if queued and not stopflag:
                 return [("exactly_once", "tasks %s were accepted and never started although stop() was not called" % queued)]
+            if final is not None and final > len(queued) and stopflag:
+                return [("quiet_after_stop", "queueSize() is %d at the end although only %s were accepted before stop() cleared the "
+                         "flag (started: %s): a run() enqueued a task after the flag was cleared" % (final, accepted, execd))]
             if final is not None and final != len(queued):
                 return [("exactly_once", "queueSize() is %d at the end; accepted %s, started %s" % (final, accepted, execd))]
         return []
